@@ -120,6 +120,7 @@ func Run(c *hx.Ctx) {
 	runWC(c)
 	runWRR(c)
 	runCWRR(c)
+	runWRRH(c)
 }
 
 // ---- weighted round robin (EDF scheduler): pick sequences of the real balancer over all-healthy hosts
